@@ -71,7 +71,7 @@ def readPacket (s : Schema) (b : Bytes) : RP :=
   | _ => .err
 
 inductive Mode where
-  | none | dec (s : Schema) | pkt (s : Schema) | link (s : Schema) | stream | disp (n : Nat)
+  | none | dec (s : Schema) | pkt (s : Schema) | link (s : Schema) | stream | disp (n : Nat) | udp
 
 structure St where
   mode : Mode := .none
@@ -103,6 +103,7 @@ def clsText : Res Vals → String
 
 def crashSpec (what key op got : String) : List SpecFail :=
   if got.startsWith "TIMEOUT" || (got.splitOn "watchdog timeout").length > 1 then [⟨"no-spin", key, s!"{what} did not return on {op.take 160}"⟩]
+  else if got.startsWith "MISMATCH" then [⟨"segmented-eq-contiguous", key, s!"{what} through the segmented reader returned a different value than through the contiguous reader on {op.take 160}"⟩]
   else if got.startsWith "PANIC" || got.startsWith "CRASH" then [⟨"no-panic", key, s!"{what} crashed on {op.take 160}: {got}"⟩]
   else if got.startsWith "ALLOC" then [⟨"alloc-linear", key, s!"{what} allocated out of proportion to its input on {op.take 160}: {got}"⟩]
   else []
@@ -139,6 +140,18 @@ def step (st : St) (op : String) (got : String) : StepResult St :=
     | some s => { st := { mode := .link s, cfgThreads := n.toNat?.getD 1, cfgReasm := r == "1" }, expected := some "ok" }
     | none => { st := { mode := .none }, expected := some "model-has-no-Packet-schema" }
   | ["new", "stream"] => { st := { mode := .stream }, expected := some "ok" }
+  | ["new", "udp"] => { st := { mode := .udp }, expected := none }
+  | ["persist", _] =>
+    { st := st, expected := if got == "skip" then none else some "ok",
+      spec := if isCrash got then [⟨"no-panic", "udp-transport", s!"face update crashed: {got}"⟩] else [] }
+  | ["dgram", hex] =>
+    match bytesOfHex hex with
+    | some b =>
+      -- a datagram made of complete TLV blocks is accounted in full and handed to the link service
+      { st := st, expected := if got == "skip" then none else some s!"in={b.length}",
+        spec := if isCrash got then [⟨"no-panic", "udp-transport", s!"the UDP transport's receive loop crashed on a datagram of {b.length} bytes: {got}"⟩] else [],
+        cov := ["udp-dgram"], nontrivial := true }
+    | none => { st := st, expected := some "bad-op" }
   | ["new", "disp", n] => { st := { mode := .disp (n.toNat?.getD 1) }, expected := some "ok" }
   | ["p", ic, hex, cuts] =>
     match st.mode, bytesOfHex hex with
